@@ -43,6 +43,10 @@ pub fn case(tape: &[u32]) -> CaseOutcome {
             (_, LibRun::Panic(p)) => {
                 return CaseOutcome::Fail(Failure::new(format!("C01:{}", p.signature()), format!("strict execution panicked: {}", p.message), d(json!({}))));
             }
+            (Outcome::Err(_), LibRun::PollBound(_)) => {
+                report.counters.push(("inconclusive:poll-bound-next-to-failing-reference-run".into(), 1));
+                continue;
+            }
             (_, LibRun::PollBound(n)) => {
                 return CaseOutcome::Fail(Failure::new("C01:poll-bound", format!("execution polled the cancellation flag {} times without finishing", n), d(json!({}))));
             }
